@@ -36,7 +36,7 @@ COMPONENTS_REAL = [
     "dns.rdataset.ImmutableRdataset, dns.immutable.Dict, dns._immutable_ctx, dns.btree (frozen trees)",
     "dns.transaction.Transaction read API",
 ]
-COMPONENTS_STUB = ["clients issuing the history", "pruning policies (pure functions of version id / count)"]
+COMPONENTS_STUB = ["clients issuing the history", "pruning policies (pure functions of version id / count)", "threading.Lock/Event inside dns.versioned (scheduler shim, concurrent tier)"]
 EXPECTED_PROBES = [
     "reader_pinned_oldest_of_3plus",
     "reader_id_of_pruned_version",
@@ -46,16 +46,54 @@ EXPECTED_PROBES = [
     "commit_without_change_no_version",
     "hostile_calls",
     "reader_open_across_commit",
+    "conc_tier_runs",
 ]
 
 
 def setup():
     Z.setup_dns()
+    import dns.versioned
+    import dns.zone
+    import dns.btreezone
+
+    from simkit import threadsim
+
+    dns.versioned.threading = threadsim.SHIM
+    funcs = threadsim.functions_of(dns.versioned.Zone)
+    funcs += threadsim.functions_of(dns.zone.Transaction, {"_setup_version", "_end_transaction", "__init__"})
+    threadsim.enable_line_preemption(funcs)
+
+
+def _gen_conc(seed, rng):
+    nthreads = rng.choice([2, 3, 3, 4, 5])
+    threads = []
+    for i in range(nthreads):
+        role = rng.choice(["w", "r", "r", "r", "p"]) if i else "w"
+        n = rng.choice([1, 2, 3])
+        if role == "w":
+            ops = [{"k": "w", "end": rng.choice(["commit", "commit", "commit", "rollback"])} for _ in range(n)]
+        elif role == "r":
+            ops = [{"k": "r", "how": rng.choice(["latest", "latest", "id"]), "rel": rng.choice([0, 1, 2]), "hold": rng.choice([0, 1, 3]), "close": rng.choice(["rollback", "with"])} for _ in range(n)]
+        else:
+            ops = [{"k": "p", "n": rng.choice([1, 1, 2, 3, None])} for _ in range(n)]
+        threads.append({"ops": ops})
+    strat = {
+        "kind": rng.choice(["random", "random", "pct", "starve", "newcomer"]),
+        "p_sync": rng.choice([0.3, 0.6, 0.9]),
+        "p_line": rng.choice([0.0, 0.05, 0.2, 0.5, 1.0]),
+        "d": rng.choice([1, 2, 3]),
+        "est_steps": rng.choice([100, 400]),
+        "victim": rng.randrange(nthreads),
+    }
+    cfg = {"kind": rng.choice(["versioned", "btree"]), "relativize": rng.random() < 0.5, "init_policy": rng.choice([None, None, "max2"]), "strategy": strat}
+    return {"prop": PROP, "seed": seed, "mode": "conc", "cfg": cfg, "threads": threads, "schedule": None}
 
 
 def gen_case(seed, tier):
     rng = sub_rng(seed, "workload")
     big = tier == "thorough"
+    if rng.random() < 0.25:
+        return _gen_conc(seed, rng)
     names = rng.sample(Z.NAMES, rng.choice([2, 3, 4]))
     if "@" not in names:
         names.append("@")
@@ -612,9 +650,125 @@ class _World:
         self.res.faults.inc("zone_level_mutator_call", len(calls))
 
 
+def _run_conc(case, res, log):
+    """Threaded tier: reader open/close races commits and policy changes at line granularity."""
+    import dns.zone
+    import dns.versioned
+    import dns.btreezone
+    import dns.name
+    import dns.rdataset
+
+    from simkit import threadsim
+    from simkit.threadsim import Deadlock, Scheduler
+
+    cfg = case["cfg"]
+    factory = dns.versioned.Zone if cfg["kind"] == "versioned" else dns.btreezone.Zone
+    text = "@ 300 IN SOA ns1 hostmaster 1 7200 900 1209600 300\n@ 300 IN NS ns1\ncounter 300 IN TXT \"0\"\n"
+    z = dns.zone.from_text(text, origin="example.", relativize=cfg["relativize"], zone_factory=factory)
+    if cfg["init_policy"] == "max2":
+        z.set_max_versions(2)
+    cname = dns.name.from_text("counter", None) if cfg["relativize"] else dns.name.from_text("counter.example.")
+    open_readers = []  # (txn, version id, counter value at open)
+    state = {"commits": 0}
+
+    def counter_of(txn):
+        return int(txn.get(cname, "TXT")[0].strings[0])
+
+    def invariants(what):
+        ids = [v.id for v in z._versions]
+        if ids != list(range(ids[0], ids[0] + len(ids))):
+            raise Violation("C11:retention-not-contiguous", f"{what}: retained ids {ids}")
+        for txn, vid, c in open_readers:
+            if vid not in ids:
+                raise Violation("C11:pinned-version-pruned", f"{what}: an open reader holds version {vid} but the retained ids are {ids}")
+            if any(x not in ids for x in range(vid, ids[-1] + 1)):
+                raise Violation("C11:pinned-version-pruned", f"{what}: versions newer than a pinned one were pruned: pinned {vid}, retained {ids}")
+
+    def on_step(cur, kind, info):
+        invariants(f"step of T{cur.idx} ({kind})")
+        res.state(tuple(v.id - z._versions[-1].id for v in z._versions), len(open_readers), z._write_txn is not None)
+
+    def body(t, spec):
+        s = sched
+        for op in spec["ops"]:
+            s.yield_point("op")
+            if op["k"] == "w":
+                txn = z.writer()
+                c = counter_of(txn)
+                s.yield_point("op")
+                txn.replace(cname, dns.rdataset.from_text("IN", "TXT", 300, f'"{c + 1}"'))
+                s.yield_point("op")
+                if op["end"] == "commit":
+                    txn.commit()
+                    state["commits"] += 1
+                else:
+                    txn.rollback()
+                log.add("w", t.idx, op["end"])
+            elif op["k"] == "r":
+                try:
+                    if op["how"] == "id":
+                        r = z.reader(id=max(1, z._versions[-1].id - op["rel"]))
+                    else:
+                        r = z.reader()
+                except KeyError:
+                    continue
+                vid = r.version.id
+                entry = (r, vid, None)
+                open_readers.append(entry)
+                invariants(f"T{t.idx} reader() returned version {vid}")
+                c0 = counter_of(r)
+                for _ in range(op["hold"]):
+                    s.yield_point("op")
+                    if counter_of(r) != c0 or r.version.id != vid:
+                        raise Violation("C11:snapshot-moved", f"T{t.idx}: reader on version {vid} saw counter {c0} then {counter_of(r)}")
+                if len(z._versions) and vid < z._versions[-1].id:
+                    res.probes.inc("reader_open_across_commit")
+                open_readers.remove(entry)
+                if op["close"] == "with":
+                    with r:
+                        pass
+                else:
+                    r.rollback()
+                log.add("r", t.idx, vid - z._versions[-1].id)
+            else:
+                z.set_max_versions(op["n"])
+                res.faults.inc("policy_change")
+                log.add("p", t.idx, op["n"])
+
+    rng = sub_rng(case["seed"], "sched")
+    sched = Scheduler(rng, strategy=cfg["strategy"], schedule=case.get("schedule"), step_cap=40000, on_step=on_step, log=log)
+    for spec in case["threads"]:
+        sched.spawn(lambda t, spec=spec: body(t, spec))
+    failure = sched.run()
+    res.steps = sched.steps
+    res.faults.inc("context_switch", sched.switches)
+    res.faults.inc("preemption_at_line", sched.line_yields)
+    res.trace = {"schedule": sched.recorded}
+    if isinstance(failure, Deadlock):
+        raise Violation("C11:deadlock", str(failure))
+    if isinstance(failure, Violation):
+        if failure.cls == "thread-exception":
+            raise Violation("C11:unexpected-exception", failure.detail)
+        raise failure
+    invariants("end")
+    if len(z._readers) != 0:
+        raise Violation("C11:reader-registry", "readers still registered after all threads ended")
+    res.probes.inc("conc_tier_runs")
+    res.nontrivial = sched.switches > 0
+
+
 def run_case(case, keep_log=False):
     res = RunResult()
     log = EventLog(keep=keep_log)
+    if case.get("mode") == "conc":
+        try:
+            _run_conc(case, res, log)
+        except Violation as v:
+            res.violation = (v.cls, v.detail)
+        res.digest = log.digest()
+        if keep_log:
+            res.extra["log"] = log.lines
+        return res
     try:
         w = _World(case, res, log)
         w.nontrivial = False
@@ -649,7 +803,39 @@ def run_case(case, keep_log=False):
     return res
 
 
+def _shrink_conc(case):
+    th = case["threads"]
+    for i in range(len(th)):
+        if len(th) > 1:
+            c = copy.deepcopy(case)
+            del c["threads"][i]
+            if c.get("schedule"):
+                c["schedule"] = [[a - (a > i), k, b - (b > i)] for a, k, b in c["schedule"] if a != i and b != i]
+            yield c
+    for i, t in enumerate(th):
+        for j in range(len(t["ops"])):
+            if len(t["ops"]) > 1:
+                c = copy.deepcopy(case)
+                del c["threads"][i]["ops"][j]
+                yield c
+    sch = case.get("schedule")
+    if sch:
+        n = len(sch)
+        chunk = max(1, n // 2)
+        while chunk >= 1:
+            for start in range(0, n, chunk):
+                c = copy.deepcopy(case)
+                del c["schedule"][start : start + chunk]
+                yield c
+            if chunk == 1:
+                break
+            chunk //= 2
+
+
 def shrink(case):
+    if case.get("mode") == "conc":
+        yield from _shrink_conc(case)
+        return
     st = case["steps"]
     n = len(st)
     chunk = max(1, n // 2)
